@@ -568,13 +568,26 @@ func SubjectIsIP(subj string) bool {
 // hostname or address, including localhost/loopback hosts.
 // Ports are ignored, if present.
 func SubjectIsInternal(subj string) bool {
-	subj = strings.ToLower(strings.TrimSuffix(hostOnly(subj), "."))
+	subj = asciiLower(strings.TrimSuffix(hostOnly(subj), "."))
 	return subj == "localhost" ||
 		strings.HasSuffix(subj, ".localhost") ||
 		strings.HasSuffix(subj, ".local") ||
 		strings.HasSuffix(subj, ".internal") ||
 		strings.HasSuffix(subj, ".home.arpa") ||
 		isInternalIP(subj)
+}
+
+// asciiLower lower-cases the letters A-Z only. Host names compare
+// case-insensitively in ASCII; Unicode case mapping turns some other
+// letters into ASCII ones (U+0130 becomes "i"), which would make a
+// different, internationalized name look like an internal one.
+func asciiLower(s string) string {
+	return strings.Map(func(r rune) rune {
+		if 'A' <= r && r <= 'Z' {
+			return r + ('a' - 'A')
+		}
+		return r
+	}, s)
 }
 
 // isInternalIP returns true if the IP of addr
